@@ -1,5 +1,9 @@
 //! C08: Cholesky, LDL^T and QR decompositions through every entry point.
 //!   (8 op ty (n0 n1) rows cols (x ...))      op 1 = Cholesky, 2 = LDL^T, 3 = QR
+//!   ty 3 = StrictRat0: StrictRat with the sqrt stand-in x^3 + 7x (zero at zero): QR on a zero
+//!   (sub-)column divides 0 / 0 and panics; the model (instrumented, Model/DecompDiv.v) predicts it.
+//!   For tags 2 and 3 the model side runs the division-instrumented transcriptions and predicts
+//!   value / absence / panic `(2)`.
 //!   ty 0 = Rat, 1 = Fp (total division, num.rs), 2 = StrictRat (c08/strict.rs): the values of Rat,
 //!   entries encoded as for Rat, but `/` PANICS on a zero divisor, as the division of ordinary exact
 //!   types does.  The property demands absence, "never a wrong factor or a panic", for a zero pivot
@@ -44,8 +48,14 @@ pub fn run(args: &[Sx]) -> Sx {
         return bad_case();
     }
     // outside the language (see RunC08.v): Rat Cholesky beyond 4x4, Rat QR with more than one reflection
-    if (ty == 0 || ty == 2)
-        && ((op == 1 && rows > 4 && rows == cols) || (op == 3 && cols <= rows && std::cmp::min(rows - 1, cols) > 1))
+    // (exception, tag 3 only: two reflections on cheap inputs, see RunC08.v c08_sparse_small)
+    let iterations = std::cmp::min(rows - 1, cols);
+    if (ty == 0 || ty == 2 || ty == 3)
+        && ((op == 1 && rows > 4 && rows == cols)
+            || (op == 3
+                && cols <= rows
+                && iterations > 1
+                && !(ty == 3 && iterations == 2 && rows <= 4 && sparse_small(rows, cols, &args[5]))))
     {
         return bad_case();
     }
@@ -56,7 +66,61 @@ pub fn run(args: &[Sx]) -> Sx {
             None => panicked(),
         };
     }
+    if ty == 3 {
+        // StrictRat0: as tag 2 with the sqrt stand-in x^3 + 7x (zero at zero).  EVERY entry point is
+        // run separately: the model predicts panic / value / absence of the routine, and all nine
+        // entry points must do the same (a panicking form next to a non-panicking one is `(-8 ...)`)
+        return strict0(op, (names[0], names[1]), rows, cols, &args[5]);
+    }
     with_ty!(ty, go(op, (names[0], names[1]), rows, cols, &args[5]))
+}
+
+/// tag 3: the whole comparison under catch_unwind; when it panics, the canonical entry point alone
+/// (tensor routine on `&Tensor`) and the Matrix routine alone must panic too — otherwise only some
+/// form panicked and the forms disagree
+fn strict0(op: i64, names: (usize, usize), rows: usize, cols: usize, data: &Sx) -> Sx {
+    use strict::StrictRat0 as T;
+    if let Some(r) = crate::guarded(|| go::<T>(op, names, rows, cols, data)) {
+        return r;
+    }
+    let Some(d) = crate::num::dec_list::<T>(data) else { return bad_case() };
+    if d.len() != rows * cols {
+        return bad_case();
+    }
+    let tensor = Tensor::from([(dim(names.0), rows), (dim(names.1), cols)], d.clone());
+    let matrix = Matrix::from_flat_row_major((rows, cols), d);
+    let t_panics = crate::guarded(|| match op {
+        1 => linear_algebra::cholesky_decomposition_tensor::<T, _, _>(&tensor).is_some(),
+        2 => linear_algebra::ldlt_decomposition_tensor::<T, _, _>(&tensor).is_some(),
+        _ => linear_algebra::qr_decomposition_tensor::<T, _, _>(&tensor).is_some(),
+    })
+    .is_none();
+    let m_panics = crate::guarded(|| match op {
+        1 => linear_algebra::cholesky_decomposition::<T>(&matrix).is_some(),
+        2 => linear_algebra::ldlt_decomposition::<T>(&matrix).is_some(),
+        _ => linear_algebra::qr_decomposition::<T>(&matrix).is_some(),
+    })
+    .is_none();
+    if t_panics && m_panics {
+        panicked()
+    } else {
+        inconsistent(890)
+    }
+}
+
+/// every entry written `(n 1)` with |n| <= 2 and column 0 zero below the diagonal
+fn sparse_small(rows: usize, cols: usize, data: &Sx) -> bool {
+    let Some(items) = data.list() else { return false };
+    let entry = |s: &Sx| -> Option<i64> {
+        let p = s.list()?;
+        if p.len() == 2 && p[1].i64() == Some(1) {
+            p[0].i64().filter(|n| n.abs() <= 2)
+        } else {
+            None
+        }
+    };
+    items.iter().all(|s| entry(s).is_some())
+        && (1..rows).all(|i| items.get(i * cols).and_then(entry) == Some(0))
 }
 
 type Shape = [(&'static str, usize); 2];
